@@ -100,7 +100,7 @@ Qed.
 Section Early.
 Variables (a : adj) (p : parser) (hp : bytes) (index : nat).
 Hypothesis Hfind : find hp CRLF = Some index.
-Let fl := rstrip_by is_bytes_ws (firstn index hp).
+Let fl := rstrip_by is_reqline_ws (firstn index hp).
 Hypothesis Hcr : has_cr_or_lf fl = false.
 
 Lemma ph_lines_error e : get_header_lines (skipn (index + 2) hp) = inl e ->
@@ -151,7 +151,7 @@ Definition ref_head (rl : bytes) (flines : list bytes)
   end.
 
 Theorem parse_header_equiv : forall a rl flines,
-  bytes_ok rl -> has_crlf_byte rl = false -> rstrip_by is_bytes_ws rl = rl ->
+  bytes_ok rl -> has_crlf_byte rl = false -> rstrip_by is_reqline_ws rl = rl ->
   Forall bytes_ok flines -> Forall (fun l => l <> []) flines -> forallb crlf_free flines = true ->
   let '(p', st) := parse_header a parser_init (head_block rl flines) in
   match ref_head rl flines with
@@ -161,15 +161,16 @@ Theorem parse_header_equiv : forall a rl flines,
     | SBadURI => st = PSError EBadURI
     | SOk _ _ _ _ _ =>
       command p' = m /\ request_uri p' = t /\ version p' = v /\
-      match framing_of dev_te_ws v (combined fs) with
+      match framing_of v (combined fs) with
       | FrRefuse code => exists e, st = PSError e /\ perr_code e = code
       | FrChunked =>
           st = PSOk /\ chunked p' = true /\ body p' = Some (BChunked chunked_init)
           /\ headers p' = hpop (hpop (combined fs) s_TRANSFER_ENCODING) s_CONTENT_LENGTH
-          /\ (forall c, hget (combined fs) s_CONTENT_LENGTH = Some c -> connection_close p' = true)
+          /\ connection_close p' = model_cc (combined fs) v
       | FrLength n =>
           st = PSOk /\ chunked p' = false /\ body p' = Some (BFixed (fixed_init n)) /\ content_length p' = n
-      | FrNone => st = PSOk /\ chunked p' = false /\ body p' = None
+          /\ connection_close p' = model_cc (combined fs) v
+      | FrNone => st = PSOk /\ chunked p' = false /\ body p' = None /\ connection_close p' = model_cc (combined fs) v
       end
     | _ => True
     end
@@ -177,9 +178,9 @@ Theorem parse_header_equiv : forall a rl flines,
 Proof.
   intros a rl flines Hok Hc Htight Hokf Hnef Hfree.
   destruct (head_block_cut rl flines (no_crlf_byte_crlf_free rl Hc) Hfree) as (Hfind & Hfirst & Hlines).
-  assert (Hfl : rstrip_by is_bytes_ws (firstn (length rl) (head_block rl flines)) = rl)
+  assert (Hfl : rstrip_by is_reqline_ws (firstn (length rl) (head_block rl flines)) = rl)
     by (rewrite Hfirst; exact Htight).
-  assert (Hcr : has_cr_or_lf (rstrip_by is_bytes_ws (firstn (length rl) (head_block rl flines))) = false)
+  assert (Hcr : has_cr_or_lf (rstrip_by is_reqline_ws (firstn (length rl) (head_block rl flines))) = false)
     by (rewrite Hfl, has_cr_or_lf_ref; exact Hc).
   pose proof (head_equiv flines Hokf Hnef) as HE.
   pose proof (request_line_equiv rl Hok Hc) as RE.
@@ -203,15 +204,15 @@ Proof.
   destruct (split_uri uri) as [sc nl pa qu fr| | |] eqn:Eu; auto.
   2:{ rewrite Est. eapply ph_uri_error; eauto. rewrite Hfl. exact Ec. }
   pose proof (parse_header_framing a parser_init (head_block rl flines) (length rl) joined h1 cmd uri ver
-                sc nl pa qu fr eq_refl eq_refl Hfind Hcr) as PF.
+                sc nl pa qu fr eq_refl eq_refl eq_refl Hfind Hcr) as PF.
   rewrite Hlines in PF. specialize (PF eq_refl Ea). rewrite Hfl in PF. specialize (PF Ec Eempty Eu).
   rewrite PH in PF. destruct PF as (P1 & P2 & P3 & PF).
   repeat (split; [assumption|]).
   assert (Hclean : forall c, hget h1 s_CONTENT_LENGTH = Some c -> clean c = true).
   { intros c Hcl. rewrite <- Hcomb in Hcl. eapply hget_clean; eauto. eapply head_fields_clean; eauto. }
-  pose proof (framing_decision_dev h1 ver Hclean) as FD. rewrite Hcomb.
+  pose proof (framing_decision h1 ver Hclean) as FD. rewrite Hcomb.
   destruct (model_framing h1 ver) as [|n| |e]; cbn [choice_framing] in FD; rewrite <- FD.
-  - destruct PF as (A & B & C & _). auto.
+  - destruct PF as (A & B & C & _ & D). auto.
   - exact PF.
   - exact PF.
   - exists e. auto.
